@@ -1823,6 +1823,11 @@ func (e *Extractor) validateFormat() error {
 // resolvePages converts 1-indexed page numbers to 0-indexed and validates them.
 // If no pages specified, returns all pages.
 func (e *Extractor) resolvePages() ([]int, error) {
+	if e.reader == nil {
+		// Page-level operations (fragments, lines, layout analysis) need the PDF reader; for the
+		// other formats they are an error, not a nil dereference.
+		return nil, fmt.Errorf("page-level extraction is only available for PDF documents (this is %s)", e.format)
+	}
 	pageCount, err := e.reader.PageCount()
 	if err != nil {
 		return nil, fmt.Errorf("failed to get page count: %w", err)
